@@ -43,8 +43,11 @@ def run(ck, progs):
     ck.rule("C08.6", "a copy of the thread count kept in shared state (vote counter) is taken after the last point where the runtime changes it")
     ck.rule("C08.7", "RootsimStop on the parallel runtime sends every rank at least as many termination notices as it is waiting for")
     ck.rule("C08.8", "the control-message broadcast (GVT start, termination) reaches every rank, and one worker is started per thread id and every worker joined: evaluated over the loop indices for 1..8 ranks / threads")
+    ck.rule("C08.9", "after a message count the shares of total_sent[] zeroed by threads 0..t-1 cover the entries of ranks 0..n-1 (a stale "
+                     "entry makes a rank wait for messages it already received and the round never ends): evaluated for 1..8 ranks x threads")
     for cfg, P in progs.items():
         rules_cover.check_broadcast(ck, P, "C08.8")
+        rules_cover.check_partition_clear(ck, P, "C08.9")
         rules_cover.check_spawn_join(ck, P, "C08.8")
         _after_node_barrier(ck, P, cfg)
         _thread_count_copies(ck, P, cfg)
